@@ -59,7 +59,7 @@ class ProcLoop:
         for nm, cl in self.lib.validity(self.cls, st, ex.ctx.con):
             out.append((nm, cl))
         for nm, cl, props in self.lib.invariant(self.cls, st, side=mode):
-            out.append((nm, cl))
+            out.append((nm, cl, props))
         if self.head:
             out += self.head(ex, st, mode)
         if mode == "assume":
